@@ -11,6 +11,9 @@ kernel application received and returned while the real ``chain`` drives it
 
 from __future__ import annotations
 
+import hashlib
+import re
+
 import numpy as np
 import jax
 import jax.numpy as jnp
@@ -94,6 +97,48 @@ def recorded(kernel):
         return out
 
     return wrapped
+
+
+# ---------------------------------------------------------------------------
+# compile reuse for eagerly dispatched scans
+# ---------------------------------------------------------------------------
+SCAN_STATS = {"compiled": 0, "reused": 0}
+_SCAN_FUNS: dict = {}
+_HEX = re.compile(r"0x[0-9a-fA-F]+")
+
+
+def install_scan_compile_cache():
+    """``seed(chain(kernel))(...)`` run eagerly ends in one eager ``scan_p.bind``
+    whose body is a freshly traced jaxpr, so JAX lowers and compiles the same
+    program again for every (burn_in, thinning) although only the indexing
+    *after* the scan differs.  JAX keys its eager-primitive cache on the identity
+    of the jaxpr object; here the key is the printed jaxpr (every equation,
+    parameter, literal and nested jaxpr) plus all other scan parameters and the
+    argument avals, so a structurally identical scan reuses the executable.  All
+    of genjax (chain, state, seed, the kernel) is still traced on every call; a
+    mutant that changes the traced program changes the key."""
+    from jax._src import dispatch
+    from jax.lax import scan_p
+
+    if getattr(scan_p.impl, "_c18_cache", False):
+        return
+
+    def impl(*args, **params):
+        parts = [k + "=" + _HEX.sub("0x", str(params[k])) for k in sorted(params)]
+        for a in args:
+            av = jax.typeof(a)
+            parts.append(f"{av}|{getattr(av, 'weak_type', None)}")
+        key = hashlib.sha1("\n".join(parts).encode()).hexdigest()
+        fun = _SCAN_FUNS.get(key)
+        if fun is None:
+            SCAN_STATS["compiled"] += 1
+            fun = _SCAN_FUNS[key] = dispatch.xla_primitive_callable(scan_p, **params)
+        else:
+            SCAN_STATS["reused"] += 1
+        return fun(*args)
+
+    impl._c18_cache = True
+    scan_p.def_impl(impl)
 
 
 # ---------------------------------------------------------------------------
